@@ -663,10 +663,11 @@ def check_C06(A: Analysis, tier):
         groups = {}
         for c in it.calls:
             if c["callee"] == VQ:
-                groups.setdefault(c["ctx"][:2], []).append(c)
-        for pre, cs in sorted(groups.items()):
+                # one group per invocation of the store step: the temp file it verifies carries the chain of call sites that created it
+                groups.setdefault((c["ctx"][:2], c.get("argmap", {}).get("tmp_file_name", EMPTY)), []).append(c)
+        for pre, cs in sorted(groups.items(), key=repr):
             rb.ob()
-            rb.inst(f"store_object [{m}] via {pre[-1].split('.')[-1]}: {len(cs)} verifier call(s)")
+            rb.inst(f"store_object [{m}] via {pre[0][-1].split('.')[-1]}: {len(cs)} verifier call(s)")
             ref = {k: v for k, v in cs[0]["argmap"].items() if k != "self"}
             # what the verdict is about: the measured size of the temp file just written and the digests computed while writing it
             sz = ref.get("tmp_file_size", EMPTY)
@@ -744,7 +745,7 @@ def check_C06(A: Analysis, tier):
     for m in ALL_MODES:
         it = A.api("delete_if_invalid_object", m)
         for (fn, h, lab, ctx, o) in it.handler_runs:
-            if fn.qual == Q("delete_if_invalid_object") and lab in ("NonMatchingObjSize", "NonMatchingChecksum"):
+            if fn.qual == A.impl_q("delete_if_invalid_object") and lab in ("NonMatchingObjSize", "NonMatchingChecksum"):
                 rd.ob()
                 rd.inst(f"delete_if_invalid_object [{m}] except {lab}")
                 if lab not in o.raises or o.normal is not None or o.ret is not None:
@@ -1267,7 +1268,7 @@ def check_C17(A: Analysis, tier):
             for p_ in params:
                 rb.ob()
                 if p_ == "object_metadata":
-                    ok = any(isinstance(c, ast.Call) and norm(c.func) == "isinstance" and norm(c.args[0]) == p_ for c in ast.walk(f.node))
+                    ok = any(isinstance(c, ast.Call) and norm(c.func) == "isinstance" and norm(c.args[0]) == p_ for c in ast.walk(A.impl(e).node))
                     rb.inst(f"{e}({p_}): isinstance test")
                 else:
                     ok = p_ in checked
